@@ -19,6 +19,8 @@ func kindOfScheme(k string) string {
 	switch k {
 	case "bearer", "apikey-hdr", "apikey-query":
 		return k
+	case "apikey-hdr-auth":
+		return "apikey-hdr" // an apiKey scheme that reads the Authorization header (legacy tokens)
 	}
 	return "unsupported"
 }
@@ -65,6 +67,8 @@ func C11(run *report.Run) {
 	} else {
 		pairs = append(pairs, pair{"bearer", "oauth2"}, pair{"basic", "apikey-hdr"}, pair{"oauth2", "apikey-hdr"}, pair{"oidc", "bearer"}, pair{"apikey-cookie", "apikey-query"})
 	}
+	// two schemes that read the same header
+	pairs = append(pairs, pair{"bearer", "apikey-hdr-auth"}, pair{"apikey-hdr-auth", "bearer"})
 	globals := []string{"none", "[A]", "[A,B]"}
 	nopsList := []int{2}
 	if run.Tier == "thorough" {
@@ -82,59 +86,85 @@ func C11(run *report.Run) {
 					if nops == 3 && placement == "different-paths" {
 						continue
 					}
-					var rec func(opts []string)
-					rec = func(opts []string) {
-						if len(opts) < nops {
-							for _, o := range c11OpOptions {
-								rec(append(append([]string{}, opts...), o))
-							}
-							return
-						}
-						// symmetry: swapping the two operations on different paths gives the same state
-						if placement == "different-paths" && opts[0] > opts[1] {
-							return
-						}
-						if nops == 3 && !(opts[0] != opts[1] || opts[1] != opts[2]) {
-							return // three equal operations add nothing over two
-						}
-						id := fmt.Sprintf("sec[A=%s,B=%s,global=%s,%s,ops=%s]", pr.a, pr.b, g, placement, strings.Join(opts, "|"))
-						if seen[id] {
-							return
-						}
-						seen[id] = true
-						sa, sb := cells.SchemeKinds[pr.a], cells.SchemeKinds[pr.b]
-						sa.Key, sb.Key = "A", "B"
-						s := &spec.Spec{}
-						s.Comp.Security = []spec.SecScheme{sa, sb}
-						if g != "none" {
-							s.Security = c11Sec(g)
-						}
-						methods := []string{"GET", "POST", "PUT"}
-						var sops []refmodel.SecOp
-						for i, o := range opts {
-							op := &spec.Op{Method: "GET", Security: c11Sec(o), Responses: []*spec.Response{{Status: "default", Desc: "d"}}}
-							path := "/p"
-							if placement == "same-path" {
-								op.Method = methods[i]
-								if i == 0 {
-									s.Paths = append(s.Paths, &spec.PathItem{Template: path})
-								}
-								s.Paths[0].Ops = append(s.Paths[0].Ops, op)
-							} else {
-								path = fmt.Sprintf("/p%d", i)
-								s.Paths = append(s.Paths, &spec.PathItem{Template: path, Ops: []*spec.Op{op}})
-							}
-							var eff [][]string
-							for _, alt := range s.EffectiveSecurity(op) {
-								eff = append(eff, append([]string{}, alt...))
-							}
-							sops = append(sops, refmodel.SecOp{Method: op.Method, Path: path, Effective: eff})
-						}
-						schemes := []refmodel.Scheme{{Key: "A", Kind: kindOfScheme(pr.a), Name: sa.Name}, {Key: "B", Kind: kindOfScheme(pr.b), Name: sb.Name}}
-						pl := &drv.SecPayload{State: id, Schemes: schemes, Ops: sops}
-						states = append(states, BState{ID: id, Attrs: map[string]string{"A": pr.a, "B": pr.b, "global": g, "placement": placement}, Gen: &genrun.Job{Spec: s.YAML()}, Prop: "C11", Payload: pl})
+					// the credential headers may also be documented as ordinary header parameters (by the first
+					// operation or the path item); that changes nothing about who may call what
+					declares := []string{""}
+					if nops == 2 && placement == "same-path" && (pr.a == "bearer" && pr.b == "apikey-hdr" || pr.a == "apikey-hdr" && pr.b == "bearer") {
+						declares = []string{"", "op0", "pathitem"}
 					}
-					rec(nil)
+					for _, declare := range declares {
+						var rec func(opts []string)
+						rec = func(opts []string) {
+							if len(opts) < nops {
+								for _, o := range c11OpOptions {
+									rec(append(append([]string{}, opts...), o))
+								}
+								return
+							}
+							// symmetry: swapping the two operations on different paths gives the same state
+							if placement == "different-paths" && opts[0] > opts[1] {
+								return
+							}
+							if nops == 3 && !(opts[0] != opts[1] || opts[1] != opts[2]) {
+								return // three equal operations add nothing over two
+							}
+							id := fmt.Sprintf("sec[A=%s,B=%s,global=%s,%s,ops=%s]", pr.a, pr.b, g, placement, strings.Join(opts, "|"))
+							if declare != "" {
+								id = fmt.Sprintf("sec[A=%s,B=%s,global=%s,%s,ops=%s,credentialHeadersDeclaredBy=%s]", pr.a, pr.b, g, placement, strings.Join(opts, "|"), declare)
+							}
+							if seen[id] {
+								return
+							}
+							seen[id] = true
+							sa, sb := cells.SchemeKinds[pr.a], cells.SchemeKinds[pr.b]
+							sa.Key, sb.Key = "A", "B"
+							s := &spec.Spec{}
+							s.Comp.Security = []spec.SecScheme{sa, sb}
+							if g != "none" {
+								s.Security = c11Sec(g)
+							}
+							methods := []string{"GET", "POST", "PUT"}
+							var sops []refmodel.SecOp
+							for i, o := range opts {
+								op := &spec.Op{Method: "GET", Security: c11Sec(o), Responses: []*spec.Response{{Status: "default", Desc: "d"}}}
+								path := "/p"
+								if placement == "same-path" {
+									op.Method = methods[i]
+									if i == 0 {
+										s.Paths = append(s.Paths, &spec.PathItem{Template: path})
+									}
+									s.Paths[0].Ops = append(s.Paths[0].Ops, op)
+								} else {
+									path = fmt.Sprintf("/p%d", i)
+									s.Paths = append(s.Paths, &spec.PathItem{Template: path, Ops: []*spec.Op{op}})
+								}
+								if declare != "" && i == 0 {
+									var ps []*spec.Param
+									for _, sc := range []spec.SecScheme{sa, sb} {
+										n := sc.Name
+										if sc.Type == "http" {
+											n = "Authorization"
+										}
+										ps = append(ps, &spec.Param{Name: n, In: "header", Schema: spec.T("string")})
+									}
+									if declare == "op0" {
+										op.Params = ps
+									} else {
+										s.Paths[0].Params = ps
+									}
+								}
+								var eff [][]string
+								for _, alt := range s.EffectiveSecurity(op) {
+									eff = append(eff, append([]string{}, alt...))
+								}
+								sops = append(sops, refmodel.SecOp{Method: op.Method, Path: path, Effective: eff})
+							}
+							schemes := []refmodel.Scheme{{Key: "A", Kind: kindOfScheme(pr.a), Name: sa.Name}, {Key: "B", Kind: kindOfScheme(pr.b), Name: sb.Name}}
+							pl := &drv.SecPayload{State: id, Schemes: schemes, Ops: sops}
+							states = append(states, BState{ID: id, Attrs: map[string]string{"A": pr.a, "B": pr.b, "global": g, "placement": placement, "declared": declare}, Gen: &genrun.Job{Spec: s.YAML()}, Prop: "C11", Payload: pl})
+						}
+						rec(nil)
+					}
 				}
 			}
 		}
